@@ -30,7 +30,11 @@ def itersRequest : Sexp → Option String
       let showSet (x : RL.Tok × Nat × Bool) : String :=
         (if x.1 = .define then ":=" else "=") ++ " " ++ (if x.2.1 = 1 then "k" else "v") ++ " " ++ (if x.2.2 then "Key" else "Val")
       some s!"sets=[{"; ".intercalate (l.sets.map showSet)}] nested={l.nested}"
-  | .list [.atom "k11", .atom callee, .atom args, .atom ty] => do
+  | .list [.atom "k11", .atom callee, .atom args, .atom ty] => k11 callee args ty "value"
+  | .list [.atom "k11", .atom callee, .atom args, .atom ty, .atom pos] => k11 callee args ty pos
+  | _ => none
+where
+  k11 (callee args ty pos : String) : Option String := do
       let c ← (match callee with
         | "declared" => some (EtaD.Callee.declared false false)
         | "declared-generic" => some (.declared true false)
@@ -46,7 +50,7 @@ def itersRequest : Sexp → Option String
       let a ← (match args with
         | "same" => some EtaD.Args.same | "permuted" => some .permuted | "duplicated" => some .duplicated
         | "nonident" => some .nonIdent | "fewer" => some .fewer | _ => none)
-      some (if EtaD.etaOK ⟨c, a, ty = "sametype"⟩ then "reduced" else "kept")
-  | _ => none
+      let p ← (match pos with | "value" => some EtaD.Pos.value | "deferred" => some .deferred | _ => none)
+      some (if EtaD.etaOK ⟨c, a, ty = "sametype", p⟩ then "reduced" else "kept")
 
 end GoCo.Iters
